@@ -27,6 +27,7 @@ type c14Case struct {
 	Lead     string   // text before the first block
 	Trail    string   // text after the last block
 	Layout   int      `json:",omitempty"` // 0 plain names; 1 dotted directory names; 2 dotted file stems (siblings share the first label); 3 both
+	SideKey  bool     `json:",omitempty"` // an unrelated key lies next to the config as <stem>.key / <stem>.key.pem (not an artifact, not a config: ignored)
 	NoNull   bool     `json:",omitempty"` // RSA key whose PKCS#8 AlgorithmIdentifier has no NULL parameters (another tool's flavour)
 	HashPos  int      `json:",omitempty"` // a (stale) hash line in the pre-placed file: 0 none, 1 first, 2 after the first block, 3 after the last block
 	WithCert bool     // a (foreign) certificate beside the key
@@ -97,6 +98,13 @@ func c14World(c c14Case) World {
 	}
 	buf = append(buf, c.Trail...)
 	w.Files = map[string][]byte{core.PemPath(t.File): buf}
+	if c.SideKey {
+		stem := strings.TrimSuffix(core.PemPath(t.File), ".pem")
+		other := core.PemBlock("PRIVATE KEY", pkcs8Fixed("P-384", 41))
+		w.Files[stem+".key"] = other
+		w.Files[stem+".key.pem"] = other
+		w.Files[stem+".pem.bak"] = other
+	}
 	return w
 }
 
@@ -245,7 +253,7 @@ func TestC14(t *testing.T) {
 	r.Rule = "three-tier hierarchy ca -> mid -> leaf; the target (any tier) pre-holds a PKCS#8 key written in gopki's shape, crypto/x509's shape or another legal shape from the harness builder (curve OID inside / outside / both, public key omitted, minimal or zero-padded scalar) for all ten curves and pooled RSA 1024/2048 (4096 in thorough), optionally with an old certificate beside it, with text before the first / after the last PEM block and with the hash line of an earlier run in front of, between or behind the blocks; RSA keys also in the flavour without NULL parameters (refusing that one is accepted, replacing it is not); paths with dots in directory names and file stems; or (leaf only) a certificate request and no key. Then 1-4 regenerations by different reasons: subject edit, keyAlgorithm edit, generate-all, touched config with -o, certificate block removed, issuer edited. Oracle after every run: same key (curve,d)/(n,e,d) in the file, certificate SPKI == that key's public key recomputed by the harness, chain checks of C01 over all three tiers; request case: request block byte-identical, SPKI == request's, no PRIVATE KEY block. Non-trivial = >= 2 regenerations of a non-P-256 key, or a foreign encoding / surrounding text, or the request case; distinct by the full case."
 	r.Assumptions = []string{"a key on a curve gopki does not support is outside the property and not generated"}
 	wrap := func(c c14Case) *core.Failure {
-		nt := len(c.Steps) >= 2 && c.KeyAlg != "P-256" || c.Lead != "" || c.Trail != "" || c.CSRDER != nil || c.HashPos > 1 || c.Layout != 0 || c.NoNull
+		nt := len(c.Steps) >= 2 && c.KeyAlg != "P-256" || c.Lead != "" || c.Trail != "" || c.CSRDER != nil || c.HashPos > 1 || c.Layout != 0 || c.NoNull || c.SideKey
 		if c.CSRDER != nil && c.KeyDER != nil {
 			r.Classes["key-plus-stale-request"]++
 		}
@@ -346,6 +354,7 @@ func TestC14(t *testing.T) {
 		}
 		c.HashPos = rapid.SampledFrom([]int{0, 0, 1, 2, 3}).Draw(t, "hashpos")
 		c.Layout = rapid.SampledFrom([]int{0, 0, 0, 1, 2, 3}).Draw(t, "layout")
+		c.SideKey = c.Layout == 0 && rapid.IntRange(0, 3).Draw(t, "sidekey") == 0
 		c.Lead = rapid.SampledFrom([]string{"", "", "", "# my key, do not lose\n", "\n\n", "Bag Attributes\n    friendlyName: x\n"}).Draw(t, "lead")
 		c.Trail = rapid.SampledFrom([]string{"", "", "", "\n", "# end of file\n", "trailing text without newline", "\r\n\r\n"}).Draw(t, "trail")
 		if rapid.IntRange(0, 5).Draw(t, "bigext") == 0 {
